@@ -1,7 +1,8 @@
 // C05 — value equality, hashing, printing and wire encoding are coherent.
 //
 // Reference model: the harness's own canonical form of TLA+ values (node.go; tuples are functions with domain
-// 1..n, records are functions with string keys, sets are order-free). Real tla.Values are built from generated
+// 1..n for the PRINT oracle; a kind-distinguishing variant for the EQUAL/HASH/MAP/GOB oracles; records are
+// functions with string keys, sets are order-free). Real tla.Values are built from generated
 // nodes in many different ways (build.go) and the real Equal / Hash / String / gob code, hashmap.HashMap and
 // immutable.Map with tla.ValueHasher are compared with the canonical form (oracles.go); vector clocks and the
 // CRDT wire states round-trip through gob (crdt.go). The printed form is decided by a recursive-descent parser
@@ -19,6 +20,8 @@ import (
 	"hash/fnv"
 	"os"
 	"path/filepath"
+	"runtime/debug"
+	"runtime/pprof"
 	"sort"
 	"strconv"
 	"strings"
@@ -35,12 +38,13 @@ type counts struct {
 }
 
 type childCfg struct {
-	Seed    int64  `json:"seed"`
-	Counts  counts `json:"counts"`
-	Workers int    `json:"workers"`
-	Dir     string `json:"dir"`
-	Single  string `json:"single,omitempty"` // "phase:index": run only this case (after a fatal crash)
-	Replay  string `json:"replay,omitempty"` // replay file
+	Seed    int64    `json:"seed"`
+	Counts  counts   `json:"counts"`
+	Workers int      `json:"workers"`
+	Dir     string   `json:"dir"`
+	Single  string   `json:"single,omitempty"` // "phase:index": run only this case (after a fatal crash)
+	Skip    []string `json:"skip,omitempty"`   // "phase:index" cases known to kill the process
+	Replay  string   `json:"replay,omitempty"` // replay file
 }
 
 var phaseSalt = map[string]uint64{"value": 11, "pair": 12, "map": 13, "wire": 14}
@@ -196,7 +200,6 @@ type childStats struct {
 	Recipes         map[string]int `json:"recipes"`
 	HashCollisions  int            `json:"hash_collisions_between_distinct_values"`
 	WrappedValues   int            `json:"causally_wrapped_values"`
-	CrossKindPairs  int            `json:"tuple_vs_function_construction_pairs"`
 	UnshrunkRepeats map[string]int `json:"unshrunk_repeats_by_class"`
 	Samples         []any          `json:"samples"`
 }
@@ -207,6 +210,13 @@ func childMain(role string) {
 		fmt.Println("bad C05_CFG:", err)
 		os.Exit(3)
 	}
+	if pf := os.Getenv("C05_PROF"); pf != "" { // development aid
+		f, _ := os.Create(pf)
+		_ = pprof.StartCPUProfile(f)
+		defer pprof.StopCPUProfile()
+	}
+	// a runaway recursion in the code under test should die quickly, not after growing a 1 GB stack
+	debug.SetMaxStack(64 << 20)
 	causal := strings.HasSuffix(role, "causal")
 	enabled := tla.WrapCausal(tla.MakeNumber(1), tla.VClock{}.Inc("a", tla.MakeNumber(1))).GetVClock() != nil
 	out := common.NewJSONLWriter(filepath.Join(cfg.Dir, role+".jsonl"))
@@ -224,12 +234,18 @@ func childMain(role string) {
 		i, _ := strconv.Atoi(p[1])
 		jobs = append(jobs, job{p[0], i})
 	default:
+		skip := map[string]bool{}
+		for _, s := range cfg.Skip {
+			skip[s] = true
+		}
 		for _, ph := range []struct {
 			name string
 			n    int
 		}{{"value", cfg.Counts.Value}, {"pair", cfg.Counts.Pair}, {"map", cfg.Counts.Map}, {"wire", cfg.Counts.Wire}} {
 			for i := 0; i < ph.n; i++ {
-				jobs = append(jobs, job{ph.name, i})
+				if !skip[fmt.Sprintf("%s:%d", ph.name, i)] {
+					jobs = append(jobs, job{ph.name, i})
+				}
 			}
 		}
 	}
@@ -302,7 +318,7 @@ func childMain(role string) {
 				spec := genCase(cfg.Seed, role, jb.phase, jb.idx)
 				for _, n := range spec.Nodes {
 					if n.depth() >= 2 {
-						local[hash64(n.canon())] = struct{}{}
+						local[hash64(n.kcanon())] = struct{}{}
 					}
 				}
 				fs := e.runCase(spec)
@@ -328,11 +344,11 @@ func childMain(role string) {
 					continue
 				}
 				// bounded triage effort: every localised (class, shape) is shrunk a few times; classes whose key
-				// depends on shrinking are shrunk up to 30 times per worker, further repeats are counted only
+				// depends on shrinking are shrunk up to 8 times per worker, further repeats are counted only
 				var todo []failure
 				for _, f := range fs {
 					pre := f.Class + "|" + f.Shape
-					limit := 30
+					limit := 8
 					if f.Shape != "" {
 						limit = 2
 					}
@@ -361,7 +377,6 @@ func childMain(role string) {
 			}
 			total.hashCollisions += e.hashCollisions
 			total.wrappedValues += e.wrappedValues
-			total.crossPairs += e.crossPairs
 			for k := range local {
 				distinct[k] = struct{}{}
 			}
@@ -393,7 +408,7 @@ func childMain(role string) {
 		out.Emit(m)
 	}
 	stats.OracleChecks, stats.Recipes = total.counts, total.recipes
-	stats.HashCollisions, stats.WrappedValues, stats.CrossKindPairs = total.hashCollisions, total.wrappedValues, total.crossPairs
+	stats.HashCollisions, stats.WrappedValues = total.hashCollisions, total.wrappedValues
 	buf, _ := json.Marshal(stats)
 	var m map[string]any
 	_ = json.Unmarshal(buf, &m)
@@ -521,10 +536,10 @@ func main() {
 	}
 
 	cnt := counts{
-		Value: r.Pick(14000, 900000),
-		Pair:  r.Pick(30000, 1500000),
-		Map:   r.Pick(1200, 40000),
-		Wire:  r.Pick(1500, 40000),
+		Value: r.Pick(4500, 200000),
+		Pair:  r.Pick(12000, 450000),
+		Map:   r.Pick(800, 20000),
+		Wire:  r.Pick(300, 8000),
 	}
 	workers := r.Pick(4, 8)
 	watchdog := time.Duration(r.Pick(8, 40)) * time.Minute
@@ -535,7 +550,39 @@ func main() {
 		wg.Add(1)
 		go func(i int, role string) {
 			defer wg.Done()
-			outcomes[i] = launch(role, childCfg{Seed: r.Seed, Counts: cnt, Workers: workers, Dir: dir}, watchdog)
+			cfg := childCfg{Seed: r.Seed, Counts: cnt, Workers: workers, Dir: dir}
+			for attempt := 0; ; attempt++ {
+				oc := launch(role, cfg, watchdog)
+				outcomes[i] = oc
+				if oc.complete || oc.res.TimedOut || attempt >= 2 {
+					return
+				}
+				// the process died (fatal error, stack overflow, unrecovered panic): find the case by running the
+				// in-flight ones alone, report it, and run the child again without it
+				var inflight []string
+				files, _ := filepath.Glob(filepath.Join(dir, "cur-"+role+"-*"))
+				for _, f := range files {
+					if b, err := os.ReadFile(f); err == nil {
+						if fl := strings.Fields(string(b)); len(fl) == 2 {
+							inflight = append(inflight, fl[0]+":"+fl[1])
+						}
+					}
+				}
+				found := false
+				for _, c := range inflight {
+					single := launch(role, childCfg{Seed: r.Seed, Workers: 1, Dir: dir, Single: c}, 5*time.Minute)
+					if !single.complete && !single.res.TimedOut {
+						found = true
+						cfg.Skip = append(cfg.Skip, c)
+						r.Report("C05:fatal-crash:"+strings.SplitN(c, ":", 2)[0], fmt.Sprintf("case %s of child %s kills the process (not a recoverable panic)", c, role),
+							map[string]any{"role": role, "fatal_case": c, "seed": r.Seed, "output_tail": tailOf(single.res.Output, 3000)})
+					}
+				}
+				if !found {
+					r.Inconclusive(fmt.Sprintf("child %s died (exit %d) and no in-flight case %v reproduces it: %s", role, oc.res.ExitCode, inflight, tailOf(oc.res.Output, 600)))
+					return
+				}
+			}
 		}(i, role)
 	}
 	var calib calibResult
@@ -552,35 +599,10 @@ func main() {
 	distinct := map[uint64]struct{}{}
 	for _, oc := range outcomes {
 		if !oc.complete {
-			// which cases were in flight?
-			var inflight []string
-			files, _ := filepath.Glob(filepath.Join(dir, "cur-"+oc.role+"-*"))
-			for _, f := range files {
-				if b, err := os.ReadFile(f); err == nil {
-					fl := strings.Fields(string(b))
-					if len(fl) == 2 {
-						inflight = append(inflight, fl[0]+":"+fl[1])
-					}
-				}
-			}
 			if oc.res.TimedOut {
-				r.Inconclusive(fmt.Sprintf("child %s: watchdog expired; cases in flight %v", oc.role, inflight))
+				r.Inconclusive(fmt.Sprintf("child %s: watchdog expired: %s", oc.role, tailOf(oc.res.Output, 400)))
 			} else {
-				// the process died (fatal error, stack overflow...): find the case by running the in-flight ones alone
-				found := false
-				for _, c := range inflight {
-					single := launch(oc.role, childCfg{Seed: r.Seed, Workers: 1, Dir: dir, Single: c}, 5*time.Minute)
-					if !single.complete && !single.res.TimedOut {
-						found = true
-						r.Report("C05:fatal-crash:"+strings.SplitN(c, ":", 2)[0], fmt.Sprintf("case %s of child %s kills the process (not a recoverable panic)", c, oc.role),
-							map[string]any{"role": oc.role, "fatal_case": c, "seed": r.Seed, "output_tail": tailOf(single.res.Output, 3000)})
-					} else {
-						absorb(r, single, keyCounts)
-					}
-				}
-				if !found {
-					r.Inconclusive(fmt.Sprintf("child %s died (exit %d) and no in-flight case reproduces it: %s", oc.role, oc.res.ExitCode, tailOf(oc.res.Output, 600)))
-				}
+				r.Inconclusive(fmt.Sprintf("child %s did not finish (exit %d)", oc.role, oc.res.ExitCode))
 			}
 			continue
 		}
@@ -634,10 +656,11 @@ func main() {
 		Floor:   r.Pick(2000, 50000),
 		Extra:   extra,
 	}, []string{
-		"'same mathematical value' is decided by the harness's canonical form: tuples are functions with domain 1..n, records are functions with string keys, sets are order-free, values of different kinds are different (strings are atomic, as in TLC); defaultInitValue is a model value equal only to itself",
+		"for Equal/Hash/maps/gob 'the same value' is decided by the harness's kind-distinguishing canonical form: sets are order-free, records are functions with string keys, a tuple is only equal to a tuple and a function (also one with domain 1..n, also the empty one) only to a function — sequences and functions are distinct values in this runtime's fragment (C03's documented restriction); values of different kinds are different; defaultInitValue is a model value equal only to itself",
+		"for the printed form the mathematical canonical form is used (a printed (1 :> a @@ 2 :> b) or [x \\in {} |-> x] denotes the TLA+ value that is also written <<a, b>> resp. <<>>)",
 		"the printed form is decided by the harness's parser for the printed sub-language with TLA+ semantics ({x, x} = {x}, @@ left-biased); the parser and canonical form are calibrated through TLC on TLC-comparable (homogeneously typed) values only",
 		"CRDT states have no Equal: 'decodes to an equal value' is decided on their complete content (unexported maps read by reflection), on Read() and on their behaviour under one further Write",
 		"strings range over printable ASCII; control characters are outside the stated universe",
-		"triage effort is bounded: per worker at most 30 failures of a class whose key needs shrinking are shrunk, further ones are only counted (unshrunk_repeats_by_class)",
+		"triage effort is bounded: per worker at most 8 failures of a class whose key needs shrinking are shrunk, further ones are only counted (unshrunk_repeats_by_class)",
 	})
 }
